@@ -259,6 +259,19 @@ theorem c11_x_main_type :
     allTypesRule = ["types := make([]MappingType, 0, len(el.Types))",
       "types = append(types, MappingType{Title: title, TokenizerType: v, MaxSize: t.Size})"] := by decide
 
+/-- `indexer.index` tokenizes every type of the field with THAT type's size limit (`tokenType.MaxSize`, the loop
+variable over `tokenTypes.All`) - what `SV.Tok.indexField` does with `t.maxSize` -/
+theorem c11_x_per_type_size :
+    indexLoops = ["_, tokenType := range tokenTypes.All"] ∧
+    indexTokenizeCalls = ["Tokenize(tokens, title, value, tokenType.MaxSize)"] := by decide
+
+/-- a quoted token is never one of the parser's keywords: every keyword test of the lexer starts with the
+`TokenQuoted` guard - so a value that is exactly `(`, `[`, `in`, ... can be asked for by quoting it (the model's
+`kwIn` / `LTok.kind` test `!t.quoted` first) -/
+theorem c11_x_quoted_never_keyword :
+    isKeywordGuards = ["IsKeyword: if lex.TokenQuoted { return false }", "IsKeywords: if lex.TokenQuoted { return false }",
+      "IsKeywordSet: if lex.TokenQuoted { return false }"] := by decide
+
 /-- the case-sensitive branch of `toLowerIfCaseInsensitive` is the normalising one (fix 11c549f):
 `if utf8.Valid(x) { return x }; return bytes.Map(identity, x)` -/
 theorem c11_x_case_sensitive_branch :
